@@ -690,5 +690,47 @@ def r17_9(ctx):
     return r
 
 
+def r17_10(ctx):
+    """'all background tasks ... owned by the connection are released within bounded time' - after close(), not only
+    after the last handle is dropped (applications keep the closed handle around). Two halves: (1) every tracked task
+    is aborted by close_with_reason itself (a task that subscribed to a state after it became terminal never sees a
+    change: close() before the connection task is first polled parks run_gathering_loop until drop); (2) every
+    detached loop of the reviewed table that belongs to one connection names the call that ends it (`stopped_by`),
+    and close_with_reason makes that call."""
+    r = RuleResult("R17.10", "K4+table", "close() itself ends every task of the connection: tracked ones aborted, detached loops given their stop signal")
+    b = ctx.body("peer_connection::PeerConnectionInner::close_with_reason")
+    r.scope.append(b.name)
+    closed = []
+    for bi, t, p in core.calls_to(b, lambda p: "watch::Sender" in p and p.endswith("::send")):
+        if mir.has_field(b.term_operand(t["a"][0]), "peer_state") and mir.has(b.term_operand(t["a"][1]), lambda x: x[0] == "agg" and x[2] == "Closed"):
+            closed.append(bi)
+    if not closed:
+        raise core.CheckerError("R17.10: peer_state.send(Closed) not found in close_with_reason")
+    anchor = closed[0]
+    ab = [bi for bi, t, p in core.calls_to(b, suffix("PeerConnectionInner::abort_tracked_tasks"))]
+    if ab and core.always_followed_by(b, anchor, ab):
+        r.ok({"site": b.where(ab[0]), "tracked tasks": "aborted on every closing path"})
+    else:
+        r.violate(b.name, "close:abort-tracked", b.where(anchor),
+                  "close_with_reason does not abort the tracked tasks (only Drop does): a task parked on a state that was already "
+                  "terminal when it subscribed stays alive for as long as the application holds the closed handle")
+    table = json.load(open(os.path.join(VERIF, "tables", "spawns.json")))
+    n = 0
+    for key, ent in sorted(table.items()):
+        if key.startswith("_") or not ent.get("stopped_by"):
+            continue
+        n += 1
+        callee = ent["stopped_by"]
+        cs = [bi for bi, t, p in core.calls_to(b, suffix(callee))]
+        if cs:
+            r.ok({"detached loop": key, "stopped_by": callee, "site": b.where(cs[0])})
+        else:
+            r.violate(b.name, "close:stop:%s" % callee, b.where(anchor),
+                      "the detached loop %s ends through %s, which close_with_reason never calls: the loop outlives close() until the last "
+                      "handle is dropped" % (key, callee))
+    r.need("connection-owned detached loops with a stop signal", n, 4)
+    return r
+
+
 def run(ctx):
-    return [r17_1(ctx), r17_2(ctx), r17_3(ctx), r17_4(ctx), r17_5(ctx), r17_6(ctx), r17_7(ctx), r17_8(ctx), r17_9(ctx)]
+    return [r17_1(ctx), r17_2(ctx), r17_3(ctx), r17_4(ctx), r17_5(ctx), r17_6(ctx), r17_7(ctx), r17_8(ctx), r17_9(ctx), r17_10(ctx)]
